@@ -13,6 +13,7 @@ weaker); names: `coreAdd_fresh_keys_current`, `finding_pooled_block_not_found`, 
 -/
 import ArmiVerif.Model.Shuffle
 import Mathlib.Data.List.Nodup
+import Mathlib.Data.List.Perm.Subperm
 
 namespace ArmiVerif.Shuffle
 
@@ -2443,5 +2444,86 @@ example :
     r.1.bbn (6, 0) = some 60 ∧ (r.2.1.blocks.map (fun b => (b.bid, b.name))).head? = some (60, (77, 0)) ∧
     r.1.bbn (6, 1) = none ∧ r.1.byName 6 = none ∧
     (nPurge r.1 r.2.1).bbn (77, 0) = none ∧ (nPurge r.1 r.2.1).bbn (6, 0) = some 60 := by decide
+
+/-! ### `SpentFuelPool._getNextLocation` -/
+
+private theorem poolCell_inj (nc : Nat) (a b : Nat) (hab : poolCell nc a = poolCell nc b) : a = b := by
+  simp only [poolCell, Prod.mk.injEq, Int.natCast_inj] at hab
+  have ha := Nat.div_add_mod a nc
+  have hb := Nat.div_add_mod b nc
+  rw [hab.1, hab.2] at ha
+  omega
+
+/-- **the cell picked is free, and it is the first free one in column / row order**: every cell with a smaller running
+index is taken -/
+theorem sfpSearch_spec (nc : Nat) (filled : List (Int × Int)) (fuel idx : Nat) (c : Int × Int)
+    (h : sfpSearch nc filled fuel idx = some c) :
+    c ∉ filled ∧ ∃ k, idx ≤ k ∧ k < idx + fuel ∧ c = poolCell nc k ∧ ∀ m, idx ≤ m → m < k → poolCell nc m ∈ filled := by
+  induction fuel generalizing idx with
+  | zero => simp [sfpSearch] at h
+  | succ n ih =>
+    unfold sfpSearch at h
+    split at h
+    · rename_i hm
+      obtain ⟨h1, k, hk1, hk2, hk3, hk4⟩ := ih (idx + 1) h
+      refine ⟨h1, k, by omega, by omega, hk3, ?_⟩
+      intro m hm1 hm2
+      rcases Nat.eq_or_lt_of_le hm1 with rfl | hlt
+      · exact hm
+      · exact hk4 m hlt hm2
+    · rename_i hm
+      simp only [Option.some.injEq] at h
+      subst h
+      exact ⟨hm, idx, Nat.le_refl _, by omega, rfl, fun m h1 h2 => by omega⟩
+
+private theorem sfpSearch_none (nc : Nat) (filled : List (Int × Int)) (fuel idx : Nat)
+    (h : sfpSearch nc filled fuel idx = none) : ∀ m, idx ≤ m → m < idx + fuel → poolCell nc m ∈ filled := by
+  induction fuel generalizing idx with
+  | zero => intro m h1 h2; omega
+  | succ n ih =>
+    unfold sfpSearch at h
+    split at h
+    · rename_i hm
+      intro m h1 h2
+      rcases Nat.eq_or_lt_of_le h1 with rfl | hlt
+      · exact hm
+      · exact ih (idx + 1) h m hlt (by omega)
+    · simp at h
+
+/-- **the search always finds a cell** among the first `len(filled) + 1` cells one
+is free, so the `itertools.count()` loop ends -/
+theorem sfpNext_free (nc : Nat) (hnc : 0 < nc) (filled : List (Int × Int)) : ∃ c, sfpNext nc filled = some c := by
+  cases h : sfpNext nc filled with
+  | some c => exact ⟨c, rfl⟩
+  | none =>
+    exfalso
+    have h' : sfpSearch nc filled (filled.length + 1) 0 = none := by
+      simpa [sfpNext, Nat.ne_of_gt hnc] using h
+    have hall := sfpSearch_none nc filled (filled.length + 1) 0 h'
+    have hnd : ((List.range (filled.length + 1)).map (poolCell nc)).Nodup :=
+      (List.nodup_range).map (fun a b hab => poolCell_inj nc a b hab)
+    have hsub : (List.range (filled.length + 1)).map (poolCell nc) ⊆ filled := by
+      intro x hx
+      obtain ⟨m, hm, rfl⟩ := List.mem_map.1 hx
+      exact hall m (Nat.zero_le _) (by have := List.mem_range.1 hm; omega)
+    have := (List.subperm_of_subset hnd hsub).length_le
+    simp at this
+    omega
+
+/-- **a dropped assembly never lands on an occupied pool cell** -/
+theorem sfpNext_not_filled (nc : Nat) (filled : List (Int × Int)) (c : Int × Int) (h : sfpNext nc filled = some c) :
+    c ∉ filled := by
+  unfold sfpNext at h
+  split at h
+  · simp at h
+  · exact (sfpSearch_spec nc filled _ 0 c h).1
+
+/-- pool cells stay pairwise distinct when assemblies are dropped one after the other -/
+theorem sfp_cells_nodup (nc : Nat) (filled : List (Int × Int)) (hnd : filled.Nodup) (c : Int × Int)
+    (h : sfpNext nc filled = some c) : (c :: filled).Nodup :=
+  List.nodup_cons.2 ⟨sfpNext_not_filled nc filled c h, hnd⟩
+
+example : sfpNext 3 [(0, 0), (1, 0), (0, 1), (2, 0)] = some (1, 1) := by decide
+
 
 end ArmiVerif.Shuffle
